@@ -65,7 +65,12 @@ HandSeeds == <<
   \* a non-recursive alias that is met before a recursive one (inlining it must not renumber the recursion)
   [env |-> <<[n |-> "Al", kind |-> "type", ty |-> O(<<Prop("x", TString, FALSE)>>)],
              [n |-> "Rn", kind |-> "type", ty |-> O(<<Prop("next", Uni(<<Ref("Rn"), TNull>>), FALSE)>>)]>>,
-   ty |-> O(<<Prop("a", Ref("Al"), FALSE), Prop("r", Ref("Rn"), FALSE)>>)]
+   ty |-> O(<<Prop("a", Ref("Al"), FALSE), Prop("r", Ref("Rn"), FALSE)>>)],
+  \* one named type at the same position of two members of a union that is tried member by member; next to an intersection with itself
+  [env |-> <<[n |-> "Pt", kind |-> "type", ty |-> O(<<Prop("x", TNumber, FALSE), Prop("y", TNumber, FALSE)>>)]>>,
+   ty |-> Uni(<<O(<<Prop("at", Ref("Pt"), FALSE), Prop("radius", TNumber, FALSE)>>), O(<<Prop("at", Ref("Pt"), FALSE), Prop("label", TString, FALSE)>>)>>)],
+  [env |-> <<[n |-> "Pt", kind |-> "type", ty |-> O(<<Prop("x", TNumber, FALSE), Prop("y", TNumber, FALSE)>>)]>>,
+   ty |-> Uni(<<Ref("Pt"), Inter(<<Ref("Pt"), O(<<Prop("name", TString, FALSE)>>)>>)>>)]
 >>
 
 \* Twin seeds: a type and a near-copy of it (one attribute changed: a literal, an optional mark, a rest element, an index signature,
